@@ -113,8 +113,15 @@ def container_readers(ctx):
     # every read() of a class following the protocol, in the active lists or not
     all_reads = {f.qualname for f in cg.by_name.get('read', []) if f.cls is not None}
     out = []
+    token_base = model.classes.get(PKG + '.token.Token')
     for c, rd in reads.items():
         stop = all_reads - {rd.qualname}
+        # a reader that gets there through a method of another token class (a list that reads its items with the item
+        # class's helper) is not the one that re-tokenizes: that other class is
+        for f in model.functions.values():
+            if f.cls is not None and f.cls is not c and f.cls not in c.mro() and token_base is not None \
+                    and f.cls.is_subclass_of(token_base):
+                stop.add(f.qualname)
         if tb.qualname in cg.reachable([rd], stop=stop) and c not in out:
             out.append(c)
     ctx._cache['container_readers'] = out
